@@ -40,15 +40,15 @@ func (t *CType) String() string {
 }
 
 type CExpr struct {
-	Kind string // ident num str bin un call index slice sel forall exists old cond conv
-	Op   string
-	Name string
-	Val  *big.Int
+	Kind    string // ident num str bin un call index slice sel forall exists old cond conv
+	Op      string
+	Name    string
+	Val     *big.Int
 	X, Y, Z *CExpr
-	Args []*CExpr
-	Vars []CVar
-	Type *CType // conv target for composite types
-	Pos  string
+	Args    []*CExpr
+	Vars    []CVar
+	Type    *CType // conv target for composite types
+	Pos     string
 }
 
 func (e *CExpr) String() string {
@@ -551,12 +551,14 @@ type Lemma struct {
 }
 
 type ContractFile struct {
-	Path   string
-	Funcs  []*FuncContract
-	Specs  []*SpecFunc
-	Axioms []*Axiom
-	Lemmas []*Lemma
-	Preds  []*SpecFunc
+	Path        string
+	Funcs       []*FuncContract
+	Specs       []*SpecFunc
+	Axioms      []*Axiom
+	Lemmas      []*Lemma
+	Preds       []*SpecFunc
+	GhostVars   []string
+	GhostFields []*SpecFunc
 }
 
 var clauseKeywords = map[string]bool{
@@ -564,7 +566,7 @@ var clauseKeywords = map[string]bool{
 	"pure": true, "trusted": true, "inline": true, "use": true, "unfold": true, "wrap": true,
 	"func": true, "spec": true, "axiom": true, "lemma": true, "assume": true, "lit": true, "panics": true,
 	"induction": true, "fresh": true, "havoc": true, "ghost": true, "pred": true, "noframe": true,
-	"reads": true, "cases": true, "nooverflow": true, "unrollall": true, "pathcap": true, "opaque": true, "mayalias": true,
+	"reads": true, "cases": true, "ghostvar": true, "ghostfield": true, "nooverflow": true, "unrollall": true, "pathcap": true, "opaque": true, "mayalias": true,
 }
 
 // parseContractText parses the `//@`-prefixed lines (prefix="//@") of a Go file
@@ -638,6 +640,18 @@ func parseContractText(path, text, prefix string) (*ContractFile, error) {
 				return fail(err)
 			}
 			cf.Axioms = append(cf.Axioms, &Axiom{Name: strings.TrimSpace(rest[:i]), Expr: e, File: path})
+			cur, curLemma = nil, nil
+			continue
+		case "ghostfield":
+			sf, err := parseSpecFunc("spec func " + rest)
+			if err != nil {
+				return fail(err)
+			}
+			cf.GhostFields = append(cf.GhostFields, sf)
+			cur, curLemma = nil, nil
+			continue
+		case "ghostvar":
+			cf.GhostVars = append(cf.GhostVars, strings.Fields(rest)...)
 			cur, curLemma = nil, nil
 			continue
 		case "lemma":
